@@ -185,7 +185,7 @@ def split_args(toks, o, c):
     return args
 
 
-def r4_format(text, int_args=(), chars=()):
+def r4_format(text, int_args=(), chars=(), opaque_args=('e',)):
     """format!("..{}..", a, b) with only `{}` holes -> vx_concatN(..); anything else -> vx_opaque_string()."""
     toks = lex(text)
     edits, log = [], []
@@ -201,7 +201,7 @@ def r4_format(text, int_args=(), chars=()):
                 rest = [text[toks[a][2]:toks[b][3]] for a, b in args[1:]]
                 if parts is not None and all(p[0] == 'lit' or p[1] == '' for p in parts) \
                         and sum(1 for p in parts if p[0] == 'hole') == len(rest) \
-                        and True:
+                        and not any(r.strip().lstrip('&') in opaque_args for r in rest):
                     items, ri = [], 0
                     for p in parts:
                         if p[0] == 'lit':
